@@ -9,24 +9,37 @@ CONFIG = dict(
                "of a counter abstraction that the fine model provably refines). The fine model is tied to the real SmoothFrameMailbox (real goring/mpsc) on "
                "every run: all goroutines are parked at build-tag yield points before each atomic step, a controller drives seeded schedules (uniform, sticky, "
                "adversarial around the store-idle/re-read window, consumer-first), and after EVERY step the five shared words, the consumer's program point, the "
-               "dispatcher queue and the invoked message are compared with the model; the property predicate runs on the implementation's own trace.",
-    level_note="Partial: atomics are assumed sequentially consistent single steps; mpsc.Push is one step (its swap/link window is not hooked); goring/mpsc are "
-               "FIFO lists in the mailbox model (their sequential refinement to a list, ring growth included, is proved: ring_*/mpsc_* theorems, tied to the real queues by the ring run; their concurrent behaviour is assumed); run()'s plain read of userMessages, the >=100000-queued Gosched branch and the recover/EscalateFailure path are not modelled; "
+               "dispatcher queue and the invoked message are compared with the model; the property predicate runs on the implementation's own trace. "
+               "The system queue (mpsc.Queue, Vyukov) is also proved as a CONCURRENT object: Push split into its swap and its link, any number of producers, every "
+               "interleaving — delivery is a prefix of the swap order (exactly once, global and per-producer FIFO), Pop answers nil only when nothing is pending or the "
+               "oldest pending node's link is missing, quiescence makes everything visible, the pending links reveal everything; composed with the wake-up protocol "
+               "(counter incremented after both steps) the mailbox invariant and no_lost_wakeup are unaffected. Tied to the real queue by run mpsc: producer/consumer "
+               "goroutines parked before the swap, between swap and link, and before each Pop.",
+    level_note="Partial: atomics are assumed sequentially consistent single steps; in the mailbox's Fine model goring/mpsc are FIFO lists and mpsc.Push is one step "
+               "(sequential refinement to a list, ring growth included: ring_*/mpsc_push_refines/mpsc_pop_refines, run ring; mpsc's swap/link window and arbitrary producer "
+               "interleavings: mpsc_delivers_swap_order … mailbox_no_lost_wakeup_split_push, run mpsc; that Fine with the split push refines the composed system beyond the "
+               "system-queue/wake-up part is argued in Props/C09Mpsc.lean, not proved; goring's concurrent behaviour rests on its mutex); run()'s plain read of userMessages, the >=100000-queued Gosched branch and the recover/EscalateFailure path are not modelled; "
                "the dispatcher is the single-consumer scheDisp (one goroutine runs scheduled functions in turn). The Go scheduler itself is replaced by the controller.",
-    lean_targets=["Cell2v.Props.C09", "Cell2v.Props.C09Ring", "modeld_c09"],
+    lean_targets=["Cell2v.Props.C09", "Cell2v.Props.C09Ring", "Cell2v.Props.C09Mpsc", "modeld_c09"],
     driver="modeld_c09",
     driver_root="Cell2v.Driver.C09",
     audit="Audit/C09.lean",
     required_theorems=["single_runner", "delivered_prefix", "no_lost_wakeup", "quiescent_all_delivered", "system_first", "pause_has_helper",
                        "ring_wf_init", "ring_push_refines", "ring_pop_refines", "ring_popMany_refines", "ring_capacity", "ring_refines_fifo",
-                       "mpsc_push_refines", "mpsc_pop_refines"],
+                       "mpsc_push_refines", "mpsc_pop_refines",
+                       "mpsc_chain_invariant", "mpsc_delivers_swap_order", "mpsc_per_producer_fifo", "mpsc_pop_blocked_only_by_unlinked",
+                       "mpsc_pop_delivers_oldest", "mpsc_quiescent_all_visible", "mpsc_link_reveals",
+                       "mailbox_pushS_is_swap_link", "mailbox_popS_is_list_pop", "mailbox_sysqueue_invariant", "mailbox_no_lost_wakeup_split_push"],
+    # hook H2 (vy("mp.swap") / vy("mp.link") / vy("mp.pop") in actorex/queue/mpsc) is committed in /repo as 3b9fc55
     harness_pkg="./c09",
     mode="diff",
     reset_prefix="reset",
     runs={
         "quick": [dict(name="ring", test="TestRing", env={"VERIF_N": "150"}, timeout=120),
+                  dict(name="mpsc", test="TestMpsc", env={"VERIF_N": "1500"}, timeout=120),
                   dict(name="main", env={"VERIF_N": "1500"}, timeout=240)],
         "thorough": [dict(name="ring", test="TestRing", env={"VERIF_N": "4000"}, timeout=120),
+                     dict(name="mpsc", test="TestMpsc", env={"VERIF_N": "20000"}, timeout=300),
                      dict(name="main", env={"VERIF_N": "40000"}, timeout=1500),
                      dict(name="seed2", env={"VERIF_N": "40000"}, seed_offset=7919, timeout=1500)],
     },
@@ -36,13 +49,19 @@ CONFIG = dict(
          "one granted atomic step of the real mailbox compared with the model; distinct = distinct (step, resulting shared state) pairs; non-trivial = every step. "
          "Run ring: the real goring.Queue / mpsc.Queue driven sequentially — capacities 1..12 x head rotation x every fill level (one pop there, push through a growth, "
          "PopMany below/at/above the length, drain, pop on empty) plus random cases with 1-4 growths (up to 192 slots), bursts to/just across the boundary, PopMany counts "
-         "0/1/len-1/len/len+1/len+5; one evaluation = one queue operation compared with the ring model and checked against a plain list",
+         "0/1/len-1/len/len+1/len+5; one evaluation = one queue operation compared with the ring model and checked against a plain list. "
+         "Run mpsc: the real mpsc.Queue with 2-4 producer goroutines (1-3 values each) and one consumer (Pop, 1/5 Empty), one granted shared-memory step per op; schedules: uniform, "
+         "sticky, consumer-eager, all-swap-then-links-in-random-order, and adversarial stall (one producer held between swap and link while the others complete their pushes and the "
+         "consumer pops: must see nil; then the link: everything arrives in swap order); every case runs until all values arrived and a final Pop answered nil",
     trusted_base=[
         "Lean 4.33.0 kernel; axioms audited per theorem (propext, Classical.choice, Quot.sound)",
         "hand-written models lean/Cell2v/Model/Mailbox.lean (Abs + Fine) tied to actorex/mailbox/mailbox.go by step-by-step replay (harness/c09 + modeld_c09)",
         "build-tag hook b43fb0c (vy yield points, VerifState) — add-only, empty when the tag is off",
+        "build-tag hook H2 (harness/c09/overlay-mpsc/h2.patch: vy(\"mp.swap\"), vy(\"mp.link\"), vy(\"mp.pop\") in actorex/queue/mpsc, VerifYield) — add-only, empty when the tag is off; committed in /repo as 3b9fc55",
         "go1.26.8 testing/synctest for 'all goroutines parked' detection and virtual time",
-        "sync/atomic sequential consistency; mpsc and goring operations are atomic single steps (goring: mutex; mpsc: swap/link window not hooked)",
+        "sync/atomic sequential consistency; goring operations are atomic single steps (mutex); mpsc at the granularity of one shared access per step "
+        "(swap of head | store of prev.next | Pop = one atomic load of tail.next plus consumer-private work | Empty); node allocation/initialisation is goroutine-local",
+        "hand-written model lean/Cell2v/Model/MpscConc.lean (concurrent mpsc) tied to actorex/queue/mpsc by harness/c09/mpsc_test.go (controller-driven real goroutines)",
         "hand-written models lean/Cell2v/Model/Ring.lean (goring ring buffer, sequential mpsc) tied to actorex/queue/{goring,mpsc} by harness/c09/ring_test.go",
     ],
     assumptions=[
